@@ -44,6 +44,9 @@ TAdv == Consume("adv") /\ Blocked /\ P!Advance(Ev.d) /\ UNCHANGED <<newr, want, 
 
 TQuiet == Consume("quiet") /\ Blocked /\ UNCHANGED <<now, rq, rel, turn, last, newr, want, ret>>
 
+\* a storm of first requests on a fresh remedy / strategy (its own queue): {"ev":"batch","n":k,"rel":r,"quota":q}
+TBatch == Consume("batch") /\ P!FreshBatch(Ev.quota, Ev.n, Ev.rel) /\ UNCHANGED <<now, rq, rel, turn, last, newr, want, ret>>
+
 TPop == Consume("pop") /\ UNCHANGED <<now, rq, rel, turn, last, newr, want, ret>>
 
 TBegin ==
@@ -71,7 +74,7 @@ TEnd ==
     /\ ret' = ret \cup {Ev.id}
     /\ UNCHANGED <<newr, want>>
 
-TNext == TReset \/ TAdv \/ TQuiet \/ TPop \/ TBegin \/ IArrive \/ IDecide \/ TEnd
+TNext == TReset \/ TAdv \/ TQuiet \/ TBatch \/ TPop \/ TBegin \/ IArrive \/ IDecide \/ TEnd
 
 TraceSpec == TInit /\ [][TNext]_tvars
 
